@@ -4,6 +4,7 @@ package props
 
 import (
 	"fmt"
+	"strings"
 
 	"github.com/truora/minidyn/interpreter"
 	mtypes "github.com/truora/minidyn/types"
@@ -307,6 +308,71 @@ func (p *c20) composedTexts(x *res, adapter string) {
 			x.viol("dispatch-by-part-of-the-text", "update", fmt.Sprintf("[%s] the update %q has no registered updater (registered: %v): class %s, want the unsupported-feature error; registered updaters ran %d times", adapter, text, parts, got.Class, ran), wit)
 		case !val.ItemsEqual(after.Item, stored):
 			x.viol("failed-update-touched-item", "update/composed", fmt.Sprintf("[%s] the unsupported update %q changed the item to %s", adapter, text, after.Item.Canon()), wit)
+		}
+	}
+}
+
+// keyExistenceGuards: the commonest write guards - attribute_not_exists(<key>) and attribute_exists(<key>), written out
+// or through a #name - are texts like any other: with the native interpreter active and a conditional matcher
+// registered under exactly that text, the matcher is called and ITS verdict decides the write (a test double that
+// answers "false" to simulate a lost race), whatever the item would say.
+func (p *c20) keyExistenceGuards(x *res, adapter string) {
+	spec := mon.SpecHashRange("tbk")
+	stored := val.Item{"h": val.Str("k"), "r": val.Str("s"), "a": val.Str("1")}
+	key := val.Item{"h": val.Str("k"), "r": val.Str("s")}
+	for _, text := range []string{"attribute_not_exists(h)", "attribute_exists(h)", "attribute_not_exists(r)", "attribute_exists(#k)", "attribute_not_exists(#k)", " attribute_exists ( h ) "} {
+		for _, verdict := range []bool{false, true} {
+			for _, present := range []bool{true, false} {
+				for _, kind := range []string{adapt.OpPut, adapt.OpDelete, adapt.OpUpdate} {
+					cl := adapt.New(adapter)
+					nc := nativeOf(cl)
+					native := interpreter.NewNativeInterpreter()
+					ran := 0
+					native.AddMatcher(spec.Name, interpreter.ExpressionTypeConditional, text, func(map[string]*mtypes.Item, map[string]*mtypes.Item) bool {
+						ran++
+						return verdict
+					})
+					native.AddUpdater(spec.Name, "SET a = :v", func(item map[string]*mtypes.Item, _ map[string]*mtypes.Item) {
+						s := "updated"
+						item["a"] = &mtypes.Item{S: &s}
+					})
+					nc.setInterp(native)
+					nc.activate()
+					cl.Do(createOp(spec))
+					if present {
+						cl.Do(adapt.Op{Kind: adapt.OpPut, Table: spec.Name, Item: stored})
+					}
+					op := adapt.Op{Kind: kind, Table: spec.Name, Cond: text}
+					if strings.Contains(text, "#k") {
+						op.Names = map[string]string{"#k": "h"}
+					}
+					switch kind {
+					case adapt.OpPut:
+						op.Item = val.Item{"h": val.Str("k"), "r": val.Str("s"), "a": val.Str("2")}
+					case adapt.OpDelete:
+						op.Key = key
+					default:
+						op.Key, op.Update, op.Values = key, "SET a = :v", val.Item{":v": val.Str("z")}
+					}
+					got := cl.Do(op)
+					x.r.Evals++
+					x.r.Counters["key_existence_guards_served_by_matchers"]++
+					x.fp(true, "%s|key-guard|%s|%v|%v|%s", adapter, text, verdict, present, kind)
+					wit := map[string]interface{}{"adapter": adapter, "registered_text": text, "matcher_verdict": verdict, "item_present": present, "request": op, "outcome": got, "matcher_ran": ran}
+					want := adapt.ClsOK
+					if !verdict {
+						want = adapt.ClsCondFailed
+					}
+					switch {
+					case got.Class == adapt.ClsRuntime:
+						x.viol("runtime-panic", got.Site, fmt.Sprintf("[%s] %s guarded by %q (registered matcher): panic %s", adapter, kind, text, got.Msg), wit)
+					case ran == 0:
+						x.viol("registered-callback-not-fired", "conditional/key-existence-guard", fmt.Sprintf("[%s] %s with the condition %q, for which a matcher is registered: the matcher was not called (class %s)", adapter, kind, text, got.Class), wit)
+					case got.Class != want:
+						x.viol("verdict-not-used", "conditional/key-existence-guard", fmt.Sprintf("[%s] %s with the condition %q: the registered matcher answered %v, the request was answered %s (item present: %v)", adapter, kind, text, verdict, got.Class, present), wit)
+					}
+				}
+			}
 		}
 	}
 }
